@@ -52,6 +52,17 @@ func gen(tier string, rng *h.Rng, emit func(string)) {
 			emit(faninLine(f, progs[rng.Intn(len(progs))], progs[rng.Intn(len(progs))], conss[rng.Intn(len(conss))], ctls[rng.Intn(len(ctls))], 4))
 		}
 	}
+	// the counter-run's shape on the real fan-ins: upstream and caller never stop, the deadline fires at
+	// a random instant of the streaming (spin.go)
+	ns := 2
+	if tier == "thorough" {
+		ns = 6
+	}
+	for _, f := range fanins {
+		for i := 0; i < ns; i++ {
+			emit(fmt.Sprintf("spin p=helper.%s at=%d reps=12", f, 50+rng.Intn(4000)))
+		}
+	}
 	// dispatchSign + queryLoop: submitter / member, share buffered before the registration,
 	// context already expired when the stage starts (F15), expiring at each quiet point
 	emit(dispatchLine("sc", "sc", "s", "ctx", "f2,f0,f1,go,r", 1, false, 4))
